@@ -713,8 +713,11 @@ def _expand_decay_modes(
     for mode in _get_modes(decay_chain):
         fsp_options: list[list[str]] = []
         for fsp in _get_fs(mode):
-            if isinstance(fsp, dict):
+            if isinstance(fsp, dict) and _get_modes(fsp):
                 fsp_options.append(_get_modes(fsp))
+            elif isinstance(fsp, dict):
+                # A particle without any decay mode (empty "Decay" block) is stable
+                fsp_options.append([next(iter(fsp.keys()))])
             elif isinstance(fsp, str):
                 fsp_options.append([fsp])
         for expanded_mode in product(*fsp_options):
